@@ -82,7 +82,7 @@ func c09Case(c *Ctx, id, stack string, roots []string, items []string) {
 			// names are reported relative to D (only for handles obtained through the wrapper)
 		}
 		got := out
-		if len(f) > 2 && f[2] == "HName" {
+		if len(f) > 2 && f[2] == "HName" && strings.HasPrefix(got, "name:") && strings.HasPrefix(want, "name:") {
 			gn, wn := string(unhx(strings.TrimPrefix(got, "name:"))), string(unhx(strings.TrimPrefix(want, "name:")))
 			if viaTop(items, f[3]) {
 				if filepath.Join(joined, gn) != filepath.Clean(wn) {
